@@ -26,9 +26,9 @@ fn enum_opts(tier: &str) -> (crate::sem_enum::EOpts, Option<usize>) {
 }
 fn flat_opts(tier: &str) -> (crate::sem_flat::FlatOpts, Option<usize>) {
     if tier == "quick" {
-        (crate::sem_flat::FlatOpts { max_members: 3, max_ghosts: 1, max_depth: 2, positional: false }, Some(5))
+        (crate::sem_flat::FlatOpts { max_members: 3, max_ghosts: 1, max_depth: 2, positional: false, ..crate::sem_flat::FlatOpts::DEF }, Some(5))
     } else {
-        (crate::sem_flat::FlatOpts { max_members: 4, max_ghosts: 1, max_depth: 3, positional: false }, Some(7))
+        (crate::sem_flat::FlatOpts { max_members: 4, max_ghosts: 1, max_depth: 3, positional: false, ..crate::sem_flat::FlatOpts::DEF }, Some(7))
     }
 }
 
